@@ -240,6 +240,32 @@ def run(tier, seed):
     mrec = [x for x in r.records if "mats" in x]
     if not mrec:
         raise common.MachineryError("matrices for the QR split were not emitted")
+    # rotations within 1e-5 .. 3e-8 rad of the identity and of the axis-aligned rotations (a well aligned crystal): Cayley numerators
+    # with q = 1e5 .. 3e7 in unbounded Python integers (identities proved for all integers by Apalache), same record format as TLC's.
+    # Entries of 1e-7 are small, not zero: snapping them loses the orientation
+    paths = sorted(set(tuple(x["path"]) for x in recs))
+    def cay_int(pv, qv):
+        pp = sum(t * t for t in pv)
+        Kx = [[0, -pv[2], pv[1]], [pv[2], 0, -pv[0]], [-pv[1], pv[0], 0]]
+        return [[(qv * qv - pp) * (1 if i == j else 0) + 2 * pv[i] * pv[j] + 2 * qv * Kx[i][j] for j in range(3)] for i in range(3)], qv * qv + pp
+    def matmul_int(A_, B_):
+        return [[sum(A_[i][k] * B_[k][j] for k in range(3)) for j in range(3)] for i in range(3)]
+    near = []
+    for qd in (100000, 1000000, 10000000, 30000000):
+        for _ in range(3 if tier == "quick" else 25):
+            pd = [rng.randint(-3, 3) for _ in range(3)]
+            if not any(pd):
+                pd = [1, -2, 1]
+            Nd, Dd = cay_int(pd, qd)
+            m = rng.choice(metrics + special)
+            base = L.exact_metric_record(m, [[1, 0, 0]], rng.choice(paths))
+            rec = dict(base, p=pd, q=qd, N=Nd, D=Dd)
+            near.append(rec)
+            pa, qa = rng.choice(AXIS[1:])
+            Na, Da = cay_int(pa, qa)
+            norod = [pt for pt in paths if not any("rod" in st for st in pt)]
+            near.append(dict(base, p=[0, 0, 0], q=0, N=matmul_int(Nd, Na), D=Dd * Da, path=list(rng.choice(norod))))
+    recs = recs + near
     u2 = rng.uniform(0.3, 30.0)
     # consecutive nearly equal cells (a strained grain of the same phase): stale per-cell caches would show
     us = [1.0, u2, u2 * (1 + 3e-6), u2 * (1 - 2e-6)]
